@@ -54,6 +54,7 @@ ASSUMPTIONS = [
 ]
 
 SIG = "md5"
+ENUM_CAP = 10
 
 
 # ============================================================================================
@@ -331,6 +332,7 @@ def flow_cases(draw):  # noqa: C901, PLR0912, PLR0915
         "fresh_checkout": draw(st.booleans()),
         "cache_index": draw(st.booleans()),
         "with_size": draw(st.booleans()),
+        "enum": draw(st.integers(0, 2)) == 0,
     }
     if Model(case).domain_problem() is not None:
         # safety net of the constructive generator: one root prefix carrying both roles
@@ -395,14 +397,9 @@ def run_flow(case, ctx):  # noqa: C901, PLR0912, PLR0915
         wsdir = os.path.join(d, "ws")
         gen.materialise(case["ws"], wsdir)
         croots = [os.path.join(d, f"c{i}") for i in range(nc)]
-        rroots = [os.path.join(d, f"r{i}") for i in range(nr)]
-        rconf = {"tmp_dir": os.path.join(d, "tmp")} if case["remote_index"] else {}
-
-        def mk_stores():
-            return ([ops.make_odb(k, croots[i]) for i, k in enumerate(case["cache_kinds"])],
-                    [ops.make_odb(k, rroots[i], **rconf) for i, k in enumerate(case["remote_kinds"])])
-
-        caches, remotes = mk_stores()
+        caches = [ops.make_odb(k, croots[i]) for i, k in enumerate(case["cache_kinds"])]
+        # remotes of the save phase are never touched (save only uses the cache role)
+        remotes0 = [ops.make_odb(k, os.path.join(d, f"r{i}")) for i, k in enumerate(case["remote_kinds"])]
 
         def wire(idx, caches, remotes):
             smap = idx.storage_map
@@ -425,7 +422,7 @@ def run_flow(case, ctx):  # noqa: C901, PLR0912, PLR0915
 
         # ---- build -> md5 -> save into the designated caches ---------------------------------
         bidx = build(wsdir, fs)
-        wire(bidx, caches, remotes)
+        wire(bidx, caches, remotes0)
         for key in list(bidx.keys()):
             if resolve(case["prefixes"], key)[1]["cache"] is None or (key in m.dirs and m.straddling(key)):
                 del bidx[key]
@@ -479,42 +476,12 @@ def run_flow(case, ctx):  # noqa: C901, PLR0912, PLR0915
         for r, c in cacheof.items():
             feeders.setdefault(c, []).append(r)
 
-        # ---- pre-existing (closed) remote contents --------------------------------------------
-        for ti, how in case["pre"]:
-            k = m.tracked[ti % len(m.tracked)]
-            e = m.entries[k]
-            root = rroots[m.res[k]["remote"]]
-            files = sorted(e["listed"]) if e["isdir"] else [e["oid"]]
-            if how == "one":
-                files = files[:1]
-            for oid in files:
-                _put_raw(root, oid, m.bytes[oid])
-            if how == "full":
-                _put_raw(root, e["oid"], m.bytes[e["oid"]])
-
         coll_index = DataIndex() if case["cache_index"] else None
 
         def do_collect(idx, phase, **kw):
             if coll_index is not None:
                 return collect([idx], "remote", cache_index=coll_index, cache_key=(phase,), **kw)
             return collect([idx], "remote", **kw)
-
-        # ---- push: round 1 with faults, round 2 clean ------------------------------------------
-        tidx = make_tidx(caches, remotes)
-        before = _snap(rroots, "before push", viols)
-
-        def new_for_push(snap):
-            return {r: (req_r.get(r, set()) & set(csnap[cacheof[r]])) - set(snap[r]) for r in cacheof}
-
-        new1 = new_for_push(before)
-        moving = sorted(set().union(*new1.values())) if new1 else []
-        fail = {moving[i % len(moving)] for i in case["fail"]} if moving else set()
-        froots = rroots if case["fail_roots"] is None else [rroots[i % nr] for i in case["fail_roots"]]
-        data = do_collect(tidx, "push", push=True)
-        inj = Injector(froots, fail=fail)
-        with inj:
-            pushed1, failed1 = push(data, jobs=case["jobs"])
-        after1 = _snap(rroots, "after push round 1", viols)
 
         def judge_push(label, new, snap0, snap1, pushed, failed):
             total = sum(len(v) for v in new.values())
@@ -537,29 +504,86 @@ def run_flow(case, ctx):  # noqa: C901, PLR0912, PLR0915
                 if gone:
                     viols.append(Viol("push-removed-object", f"push {label}: remote {r} lost {sorted(gone)}"))
 
-        judge_push("round1", new1, before, after1, pushed1, failed1)
+        def push_phase(tag, plan, fail_roots, phase):
+            """Fresh remotes `r<i><tag>` (with the closed pre-existing contents), push with the fault plan, clean
+            retry, all oracle clauses of the push half.  plan: indices into the sorted ids that have to move
+            (int list) or an explicit id set."""
+            o = {}
+            roots = [os.path.join(d, f"r{i}{tag}") for i in range(nr)]
+            conf = {"tmp_dir": os.path.join(d, "tmp" + tag)} if case["remote_index"] else {}
+            rem = [ops.make_odb(k, roots[i], **conf) for i, k in enumerate(case["remote_kinds"])]
+            for ti, how in case["pre"]:
+                k = m.tracked[ti % len(m.tracked)]
+                e = m.entries[k]
+                root = roots[m.res[k]["remote"]]
+                files = sorted(e["listed"]) if e["isdir"] else [e["oid"]]
+                if how == "one":
+                    files = files[:1]
+                for oid in files:
+                    _put_raw(root, oid, m.bytes[oid])
+                if how == "full":
+                    _put_raw(root, e["oid"], m.bytes[e["oid"]])
+            tidx = make_tidx(caches, rem)
+            before = _snap(roots, f"before push{tag}", viols)
 
-        if case["recollect"]:
-            tidx = make_tidx(caches, remotes)
-            data = do_collect(tidx, "push", push=True)
-        new2 = new_for_push(after1)
-        pushed2, failed2 = push(data, jobs=case["jobs"])
-        after2 = _snap(rroots, "after push round 2", viols)
-        judge_push("round2", new2, after1, after2, pushed2, failed2)
-        if failed2:
-            viols.append(Viol("push-retry-failed", f"fault-free retry reported {failed2} failed objects"))
-        for r in range(nr):
-            lack = des_r.get(r, set()) - set(after2[r])
-            if lack:
-                viols.append(Viol("push-incomplete",
-                                  f"after the clean retry remote {r} lacks {sorted(lack)} of the entries the mapping "
-                                  f"designates to it (prefixes {case['prefixes']})"))
-            for oid in sorted(set(after2[r]) & set(m.bytes)):
-                if after2[r][oid] != m.bytes[oid]:
-                    viols.append(Viol("push-wrong-bytes", f"remote {r}: object {oid} differs from the reference bytes"))
-                    break
+            def new_for_push(snap):
+                return {r: (req_r.get(r, set()) & set(csnap[cacheof[r]])) - set(snap[r]) for r in cacheof}
+
+            new1 = new_for_push(before)
+            moving = sorted(set().union(*new1.values())) if new1 else []
+            if isinstance(plan, set):
+                fail = plan
+            else:
+                fail = {moving[i % len(moving)] for i in plan} if moving else set()
+            froots = roots if fail_roots is None else [roots[i % nr] for i in fail_roots]
+            data = do_collect(tidx, phase, push=True)
+            inj = Injector(froots, fail=fail)
+            with inj:
+                pushed1, failed1 = push(data, jobs=case["jobs"])
+            after1 = _snap(roots, f"after push round 1{tag}", viols)
+            judge_push("round1", new1, before, after1, pushed1, failed1)
+            if case["recollect"]:
+                tidx = make_tidx(caches, rem)
+                data = do_collect(tidx, phase, push=True)
+            new2 = new_for_push(after1)
+            pushed2, failed2 = push(data, jobs=case["jobs"])
+            after2 = _snap(roots, f"after push round 2{tag}", viols)
+            judge_push("round2", new2, after1, after2, pushed2, failed2)
+            if failed2:
+                viols.append(Viol("push-retry-failed", f"fault-free retry reported {failed2} failed objects"))
+            for r in range(nr):
+                lack = des_r.get(r, set()) - set(after2[r])
+                if lack:
+                    viols.append(Viol("push-incomplete",
+                                      f"after the clean retry remote {r} lacks {sorted(lack)} of the entries the "
+                                      f"mapping designates to it (prefixes {case['prefixes']})"))
+                for oid in sorted(set(after2[r]) & set(m.bytes)):
+                    if after2[r][oid] != m.bytes[oid]:
+                        viols.append(Viol("push-wrong-bytes",
+                                          f"remote {r}: object {oid} differs from the reference bytes"))
+                        break
+            o.update(roots=roots, remotes=rem, conf=conf, tidx=tidx, before=before, moving=moving, inj=inj,
+                     froots=froots, after2=after2, new2=new2, pushed=pushed1 + pushed2)
+            return o
+
+        # ---- push: round 1 with the drawn fault subset, round 2 clean -----------------------------
+        P = push_phase("", case["fail"], case["fail_roots"], "push")
         if viols:
             return Result(viols, False, ["push-violation"], {})
+        # ---- enumeration: every single object that has to move fails once (fresh remotes each time) ---
+        enumerated = 0
+        if case.get("enum"):
+            for n, oid in enumerate(P["moving"][:ENUM_CAP]):
+                push_phase(f"e{n}", {oid}, None, f"push-e{n}")
+                enumerated += 1
+                if viols:
+                    return Result(viols, False, ["push-violation", "enumerated-single-fault"], {})
+        rroots, remotes, rconf, tidx = P["roots"], P["remotes"], P["conf"], P["tidx"]
+        before, inj, froots, after2, new2 = P["before"], P["inj"], P["froots"], P["after2"], P["new2"]
+
+        def mk_stores():
+            return ([ops.make_odb(k, croots[i]) for i, k in enumerate(case["cache_kinds"])],
+                    [ops.make_odb(k, rroots[i], **rconf) for i, k in enumerate(case["remote_kinds"])])
 
         # ---- empty the caches, fetch (optionally a faulty round first), clean fetch ---------------
         for root in croots:
@@ -710,12 +734,15 @@ def run_flow(case, ctx):  # noqa: C901, PLR0912, PLR0915
                 cl.append("fault-on-some-remotes")
         if finj is not None and finj.faulted:
             cl.append("fetch-fault-hit")
+        if enumerated:
+            cl.append("single-faults-enumerated")
         if sum(len(v) for v in new2.values()) == 0:
             cl.append("round2-nothing-to-move")
         nontrivial = bool(hit) or (len(live_r) >= 2 and has_dir)
         return Result(viols, nontrivial, cl, {
             "faults_injected": len(inj.faulted) + (len(finj.faulted) if finj else 0),
-            "objects_pushed": pushed1 + pushed2,
+            "objects_pushed": P["pushed"],
+            "single_faults_enumerated": enumerated,
             "objects_fetched": fetched2 + (fetched1 if case["ffail"] else 0),
             "flows": 1,
         })
